@@ -9,6 +9,9 @@ export GOFLAGS=-mod=mod GOPROXY=off GOSUMDB=off GOTOOLCHAIN=local
 S=$(mktemp -d /var/tmp/verif-seedtest.XXXXXX)
 cleanup() { if [ -n "${KEEP_REPLAYS:-}" ] && [ -d "$S/verif/replays" ]; then mkdir -p "$KEEP_REPLAYS"; cp "$S"/verif/replays/* "$KEEP_REPLAYS"/ 2>/dev/null; fi; git -C /repo worktree remove --force "$S/repo" 2>/dev/null; rm -rf "$S"; git -C /repo worktree prune; }
 trap cleanup EXIT
+# every scratch worktree path leaves its own entries in the Go build cache (about 1 GB per run): trim what
+# has not been used for three hours once the cache passes 60 GB
+if [ "$(du -sm /root/.cache/go-build 2>/dev/null | cut -f1)" -gt 60000 ] 2>/dev/null; then find /root/.cache/go-build -type f -mmin +180 -size +512k -delete 2>/dev/null; fi
 git -C /repo worktree add -q --detach "$S/repo" HEAD || exit 2
 ( cd "$S/repo" && git apply "$PATCH" ) || { echo "patch does not apply"; exit 2; }
 mkdir -p "$S/verif"; cp /verif/known_findings.json "$S/verif/"
